@@ -416,6 +416,13 @@ impl AdvancedStringVec {
                 let entry = BitPackedEntry::new(existing_offset, s_bytes.len())?;
                 let index = self.entries.len();
                 self.entries.push(entry);
+
+                // Prefix overlap: the arena ends with a prefix of the new string,
+                // so only the remainder still has to be stored behind it
+                let stored = self.arena.len() - existing_offset;
+                if stored < s_bytes.len() {
+                    self.arena.extend_from_slice(&s_bytes[stored..]);
+                }
                 
                 self.overlap_table.add_string(index, s_bytes);
                 self.update_stats();
@@ -472,6 +479,14 @@ impl AdvancedStringVec {
                 if let Some(overlap_info) = self.find_best_overlap(candidate_bytes, s_bytes) {
                     let candidate_entry = self.entries[candidate_idx];
                     let match_offset = candidate_entry.offset() + overlap_info.0;
+                    let candidate_end = candidate_entry.offset() + candidate_bytes.len();
+                    // A prefix overlap reaches past the candidate; it is usable only if
+                    // the candidate is last in the arena so the remainder can follow it
+                    if match_offset + s_bytes.len() > candidate_end
+                        && candidate_end != self.arena.len()
+                    {
+                        continue;
+                    }
                     return Some((match_offset, overlap_info.1));
                 }
             }
